@@ -11,6 +11,7 @@ CONSTANTS
   Seq = FALSE
   UseLock = FALSE
   UseGapAtomic = TRUE
+  FinalTestsDone = TRUE
   AbortEnabled = FALSE
 SYMMETRY Perms
 INVARIANT NoLostInsert
